@@ -1,0 +1,20 @@
+//go:build verif
+
+// Verification hook (add-only, compiled only with -tags verif) for the shared-table checks: start an NDNLP link service
+// exactly as Run does (face table registration, receive and send goroutines running the real runReceive / runSend) and
+// additionally tell when its send goroutine -- which performs the teardown (FaceTable.Remove -> Rib.CleanUpFace) after the
+// transport has ended -- has returned.  No behaviour of the package is changed.
+
+package face
+
+// VerifRunLinkService is NDNLPLinkService.Run(nil) plus a channel that is closed when runSend has returned.
+func VerifRunLinkService(l *NDNLPLinkService) <-chan struct{} {
+	done := make(chan struct{})
+	FaceTable.Add(l)
+	go l.runReceive()
+	go func() {
+		l.runSend()
+		close(done)
+	}()
+	return done
+}
